@@ -155,6 +155,29 @@ Example separation_vector_bound_nonvacuous :
   | _ => false end = true.
 Proof. split; [exact sample_in_box|vm_compute; reflexivity]. Qed.
 
+(** ... and each component is congruent to the exact difference of the two entries modulo L, up to
+    the rounding of the float subtraction and the three roundings of [sep]. *)
+Theorem separation_vector_congruent : forall (dim : nat) (L : f64) (ref tgt out : list f64),
+  ffinite L = true -> 0 < B2R L -> B2R (half L) = B2R L / 2 -> B2R L <= bpow radix2 1022 ->
+  length ref = dim -> length tgt = dim -> Forall (in_box L) ref -> Forall (in_box L) tgt ->
+  cubic_separation_vector dim L ref tgt = Some out ->
+  forall i, (i < dim)%nat ->
+  let t := B2R (nth i tgt fnan) in let r := B2R (nth i ref fnan) in
+  exists k : Z,
+    Rabs (B2R (nth i out fnan) - (t - r - IZR k * B2R L)) <=
+      / 2 * ulp64 (t - r) + / 2 * ulp64 (RN (t - r) + B2R L / 2) + ulp64 (B2R L).
+Proof. exact PeriodicProofs.cubic_separation_vector_congruent. Qed.
+Print Assumptions separation_vector_congruent.
+Example separation_vector_congruent_nonvacuous :
+  (Forall (in_box fone) [p_075; p_025] /\ Forall (in_box fone) [p_025; p_075]) /\
+  B2R (half fone) = B2R fone / 2 /\ B2R fone <= bpow radix2 1022 /\
+  match cubic_separation_vector 2 fone [p_075; p_025] [p_025; p_075] with
+  | Some [a; b] => true | _ => false end = true.
+Proof.
+  split; [exact sample_in_box|]. split; [apply sample_sep_hyps|].
+  split; [rewrite fone_R; change 1 with (bpow radix2 0); apply bpow_le; lia|vm_compute; reflexivity].
+Qed.
+
 (** ** The cuboid class with all lengths equal is the cubic class (every method). *)
 Theorem cubic_eq_cuboid : forall (L : f64) (n : nat),
   (forall x i, (i < n)%nat -> cuboid_wrap_entry (repeat L n) x i = wrap x L) /\
